@@ -21,14 +21,28 @@ def parse(text):
     return d, set(x for x in ch.split(",") if x)
 
 
+class SendPathError(Exception):
+    """the send path failed on a message whose own payload is encodable: header factory / header encoder / checksum"""
+
+
 def frame_of(api, message):
-    """the bytes the real send path writes for `message` (same calls as AirTouchSocket._drain_message_queue)"""
+    """the bytes the real send path writes for `message` (same calls as AirTouchSocket.send / _write).  A message the message
+    encoder itself cannot express raises whatever the encoder raises (nothing reaches the wire: the caller's business);
+    a failure anywhere else in the send path raises SendPathError - an accepted, encodable command would be lost"""
     reg = api.reg
     enc = reg.get_encoder(message.message_id)
-    hdr = reg.header_factory.create_from_message(message, enc.size(message))
-    eh = reg.header_encoder.encode(hdr)
+    size = enc.size(message)
+    probe = reg.header_encoder  # noqa: F841
+    try:
+        hdr = reg.header_factory.create_from_message(message, size)
+    except Exception as e:  # noqa: BLE001
+        raise SendPathError("header factory: %s: %s" % (type(e).__name__, e)) from e
     mb = enc.encode(hdr, message)
-    crc = reg.checksum_calculator.calculate(eh.checksum_data + mb)
+    try:
+        eh = reg.header_encoder.encode(hdr)
+        crc = reg.checksum_calculator.calculate(eh.checksum_data + mb)
+    except Exception as e:  # noqa: BLE001
+        raise SendPathError("header %r cannot be encoded: %s: %s" % (hdr, type(e).__name__, e)) from e
     return bytes(eh.header_bytes), bytes(mb), bytes(crc), hdr
 
 
@@ -243,6 +257,11 @@ def run(ctx, deep=False):
                     continue
                 try:
                     hb, mb, crc, hdr = frame_of(api, sent[0][0])
+                except SendPathError as e:
+                    ctx.violation("C04:%d:send-path" % gen, "AirTouch %d %s %d %s(%s): the call was accepted and its message is encodable, but the send path cannot frame it: %s "
+                                  "(the socket would log an encoding error and transmit nothing)" % (gen, target, ident, method, ", ".join(args), e), kind="input",
+                                  call=[gen, ci, target, ident, method, args], implementation_output=str(e), spec_verdict="one frame on the wire")
+                    break
                 except Exception as e:  # noqa: BLE001  (unencodable: the socket logs it and nothing reaches the wire)
                     ctx.count("%d:%s.%s:unencodable:%s" % (gen, target, method, type(e).__name__))
                     continue
